@@ -69,6 +69,41 @@ Definition spec_dgram (ifs : iftab) (now : N) (sp : spec) (d : dgram) : spec :=
   | None => sp
   end.
 
+Definition srv_entries_of (c : cache) (inst : bytes) : bucket :=
+  match bm_get inst (c_srv c) with Some b => b | None => [] end.
+
+(* the records of the datagram that were NEW to the cache and not themselves expiring (TTL > 1:
+   a new goodbye record cannot make anything resolvable): (type, owner name; for a PTR the
+   instance it points to) *)
+Fixpoint rec_news (c : cache) (now ifx : N) (fu : bool) (rs : list rr) : list (N * bytes) :=
+  match rs with
+  | [] => []
+  | r :: rest =>
+    let '(c1, res) := add_or_update c now ifx r fu in
+    (match res with
+     | Some (_, true) =>
+       if 1 <? r_ttl r then [(r_type r, if r_type r =? TY_PTR then alias_of r else r_name r)] else []
+     | _ => []
+     end) ++ rec_news c1 now ifx fu rest
+  end.
+
+Definition dgram_news (ifs : iftab) (now : N) (sp : spec) (d : dgram) : list (N * bytes) :=
+  match accepted_msg ifs d with
+  | Some m => rec_news (sp_c sp) now (d_if d) (for_us (sp_q sp) (m_answers m)) (msg_records m)
+  | None => []
+  end.
+
+Fixpoint iter_news (ifs : iftab) (now : N) (sp : spec) (ds : list dgram) : list (N * bytes) :=
+  match ds with
+  | [] => []
+  | d :: t => dgram_news ifs now sp d ++ iter_news ifs now (spec_dgram ifs now sp d) t
+  end.
+
+Definition news_relevant (c : cache) (inst : bytes) (tn : N * bytes) : bool :=
+  let t := fst tn in
+  (((t =? TY_PTR) || (t =? TY_SRV) || (t =? TY_TXT)) && beq (snd tn) inst)
+  || (is_addr_type t && existsb (fun e => beq (lower (snd tn)) (lower (srv_host e))) (srv_entries_of c inst)).
+
 Definition spec_call (now : N) (sp : spec) (cl : call) : spec :=
   match cl with
   | CBrowse ty ch => mkSpec (sp_c sp) (q_set ty ch (sp_q sp))
@@ -151,13 +186,13 @@ Definition relevant_any_host (c : cache) (inst : bytes) (d : dlv) : bool :=
 Inductive fail : Type :=
 | F_len
 | F04_order (k ch : N) (inst : bytes)
-| F04_complete (k ch : N) (ty inst : bytes)
+| F04_complete (k ch : N) (ty inst : bytes) (fresh : bool)   (* fresh: a NEW record of the instance was cached in this iteration *)
 | F04_followup (k : N) (inst : bytes) (stale : bool)
 | F04_wake (k : N) (inst : bytes) (stale : bool)
 | F04_many (k : N) (inst : bytes)
 | F04_labels (k : N) (ls : list bytes)
 | F05_alive (k ch : N) (ty inst : bytes)
-| F05_dead (k ch : N) (ty inst : bytes)
+| F05_dead (k ch : N) (ty inst : bytes) (ptr_soon : bool)    (* ptr_soon: every PTR of it is in its last second *)
 | F05_wake (k ch : N) (ty inst : bytes)
 | F05_again (k ch : N) (inst : bytes).
 
@@ -220,7 +255,9 @@ Definition step05 (ifs : iftab) (k : N) (t : t05) (it : iter) (wake : option N) 
   let ups2 := ups_current (sp_q sp3) ups1 in
   let dead2 := filter (fun x => existsb (fun tc => snd tc =? fst x) (sp_q sp3)) dead1 in
   let fsT := flat_map (fun u => if alive_weak (sp_c sp3) now (fst (snd u)) (snd (snd u)) then []
-                               else [F05_dead k (fst u) (fst (snd u)) (snd (snd u))]) ups2 in
+                               else [F05_dead k (fst u) (fst (snd u)) (snd (snd u))
+                                       (negb (existsb (fun p => negb (expires_soon p now))
+                                                      (ptr_entries (sp_c sp3) (fst (snd u)) (snd (snd u)))))]) ups2 in
   let fsW := flat_map (fun u =>
                let ok := match wake with
                          | Some w => w <=? death_time (sp_c sp3) (fst (snd u)) (snd (snd u))
@@ -289,17 +326,18 @@ Definition expected_followup (c : cache) (inst : bytes) : option (bytes * N) :=
          end
        end.
 
-Definition ev04 (k : N) (acc : list up_entry * list (N * bytes) * list bytes * list bytes * list fail)
-    (ce : N * event) : list up_entry * list (N * bytes) * list bytes * list bytes * list fail :=
-  let '(ups, found, newfound, resolved_now, fs) := acc in
+Definition ev04 (k : N)
+    (acc : list up_entry * list (N * bytes) * list bytes * list bytes * list bytes * list fail)
+    (ce : N * event) : list up_entry * list (N * bytes) * list bytes * list bytes * list bytes * list fail :=
+  let '(ups, found, newfound, resolved_now, removed_now, fs) := acc in
   let ch := fst ce in
   match snd ce with
-  | EFound _ inst => (ups, found ++ [(ch, inst)], newfound ++ [inst], resolved_now, fs)
-  | ERemoved _ inst => (ups_del ch inst ups, found, newfound, resolved_now, fs)
+  | EFound _ inst => (ups, found ++ [(ch, inst)], newfound ++ [inst], resolved_now, removed_now, fs)
+  | ERemoved _ inst => (ups_del ch inst ups, found, newfound, resolved_now, removed_now ++ [inst], fs)
   | EResolved r =>
     let inst := rs_name r in
     let ok := existsb (fun x => (fst x =? ch) && beq (snd x) inst) found in
-    (ups_add ch (rs_ty r) inst ups, found, newfound, resolved_now ++ [inst],
+    (ups_add ch (rs_ty r) inst ups, found, newfound, resolved_now ++ [inst], removed_now,
      if ok then fs else fs ++ [F04_order k ch inst])
   end.
 
@@ -331,8 +369,9 @@ Definition step04 (ifs : iftab) (k : N) (t : t04) (it : iter) (wake : option N) 
                 | None => []
                 end) due in
   (* events *)
-  let '(ups1, found1, newfound, resolved_now, fsE) :=
-    fold_left (ev04 k) (ob_evts ob) (t4_ups t, t4_found t, [], [], []) in
+  let '(ups1, found1, newfound, resolved_now, removed_now, fsE) :=
+    fold_left (ev04 k) (ob_evts ob) (t4_ups t, t4_found t, [], [], [], []) in
+  let news := iter_news ifs now (t4_sp t) (deliveries_in_order (i_dgrams it)) in
   let ups2 := ups_current (sp_q sp3) ups1 in
   let found2 := filter (fun x => existsb (fun tc => snd tc =? fst x) (sp_q sp3)) found1 in
   (* C: complete, triggered, browsed => up *)
@@ -341,12 +380,16 @@ Definition step04 (ifs : iftab) (k : N) (t : t04) (it : iter) (wake : option N) 
                  if alive_strong (sp_c sp3) now (fst tc) inst
                     && (existsb (relevant_any_host (sp_c sp3) inst) cur || browse_called (fst tc) (i_calls it))
                     && negb (existsb (up_is (snd tc) inst) ups2)
-                 then [F04_complete k (snd tc) (fst tc) inst] else [])
+                 then [F04_complete k (snd tc) (fst tc) inst
+                         (existsb (news_relevant (sp_c sp3) inst) news || browse_called (fst tc) (i_calls it))]
+                 else [])
                  (dedup (map (fun p => alias_of (e_rr p))
                              (match bm_get (fst tc) (c_ptr (sp_c sp3)) with Some b => b | None => [] end))))
                (sp_q sp3) in
   (* follow-up episodes *)
-  let open1 := filter (fun i => negb (mem i resolved_now)) (t4_open t) in
+  (* an instance has an open episode after a ServiceFound without ServiceResolved, and after a
+     ServiceRemoved (the daemon then waits for records again), until its next ServiceResolved *)
+  let open1 := filter (fun i => negb (mem i resolved_now)) (dedup (t4_open t ++ removed_now)) in
   let is_up inst := existsb (fun u => beq (snd (snd u)) inst) ups1 in
   let '(oblig2, open2) :=
     fold_left (fun (acc : list (bytes * (N * bool)) * list bytes) inst =>
